@@ -746,6 +746,7 @@ def check_sqlite(ctx, model, idm, S, SUB, cov):
             reqs.append(f"c10.filter_many {sp_args(sp)} {s[0]} {s[1]} {l}")
             reqs.append(f"c10.spec_in_sub_many {sp_args(sp)} {s[0]} {s[1]} {l}")
         reps = model.batch(reqs)
+        spec_by = {}
         for j, (sp, s) in enumerate(plan):
             table = by_space[sp]
             cnt = m.count(S[sp], SUB[s])
@@ -760,6 +761,18 @@ def check_sqlite(ctx, model, idm, S, SUB, cov):
                 diff = sorted(set(got) ^ set(spec))
                 viol(ctx, "sql-range-filter", f"IDManager.get_all/count({SP_NAME[sp]}, {s[0]}:{s[1]}) select {cnt}/{len(got)} rows, the byte layout has {len(spec)} members in the table"
                      + (f"; e.g. id {diff[0]:#x}" if diff else ""), dict(case, ids=table if len(table) < 400 else diff[:50]), space=SP_NAME[sp])
+            spec_by.setdefault(s, set()).update(spec)
+        # the listing / count over ALL spaces (id_space=None) with a subspace: the union of the per-space members
+        for s in list(spec_by)[:: max(1, len(spec_by) // ctx.pick(60, 400))]:
+            want = sorted(spec_by[s])
+            got = sorted(x.id for x in m.get_all(None, SUB[s]))
+            cnt = m.count(None, SUB[s])
+            cov.add({"kind": "sqlfilter-all-spaces", "sub": s}, klass="sqlite-filter/all-spaces", sample_every=997)
+            if got != want or cnt != len(want):
+                diff = sorted(set(got) ^ set(want))
+                viol(ctx, "sql-range-filter", f"IDManager.get_all/count(None, {s[0]}:{s[1]}) (all spaces) select {len(got)}/{cnt} rows, the byte layouts have {len(want)} members in the tables"
+                     + (f"; e.g. id {diff[0]:#x}" if diff else ""), {"kind": "sqlfilter-all", "sub": s, "ids": diff[:50]}, space="all")
+                break
     finally:
         m.close()
 
@@ -862,5 +875,22 @@ def replay(ctx, model, rec):
             m.close()
         orc = model.one(f"c10.spec_in_sub_many {sp_args(sp)} {s[0]} {s[1]} {','.join(map(str, ids)) if ids else '-'}")
         spec = sorted(i for i, bit in zip(ids, orc) if bit == "1") if ids else []
+        return {"violates": got != spec or cnt != len(spec), "selected": got[:10], "members": spec[:10], "count": cnt}
+    if kind == "sqlfilter-all":
+        db = os.path.join(ctx.work, "replay-all.db")
+        m = idm.IDManager(db)
+        try:
+            ids = sorted(set(i for i in case.get("ids", []) if 0 < i < 2 ** 32))
+            for i in ids:
+                m.set_id(i, f"d{i}")
+            got = sorted(x.id for x in m.get_all(None, sub))
+            cnt = m.count(None, sub)
+        finally:
+            m.close()
+        spec = []
+        for i in ids:
+            owner = [o for o in SPACES if spec_in_space_py(o, i)][0]
+            if model.one(f"c10.spec_in_sub_many {sp_args(owner)} {s[0]} {s[1]} {i}") == "1":
+                spec.append(i)
         return {"violates": got != spec or cnt != len(spec), "selected": got[:10], "members": spec[:10], "count": cnt}
     return {"violates": False, "note": f"re-run the check to replay cases of kind {kind}"}
